@@ -6,6 +6,7 @@ package gen
 import (
 	_ "embed"
 	"encoding/json"
+	"strconv"
 	"strings"
 
 	"pgregory.net/rapid"
@@ -402,4 +403,90 @@ func SeedCorpus() [][]byte {
 		out = append(out, []byte(p))
 	}
 	return out
+}
+
+// Deep builds trees that are deep or wide by construction: up to 48 levels of
+// nested quotes and list items around a body whose inline content nests
+// emphasis, images and links up to 40 levels, or holds up to 150 sibling
+// inlines, items or blocks. Anything indexed by depth or by sibling count (a
+// traversal stack, an indent stack, a recursion) is crossed well past any
+// power-of-two capacity by these documents.
+func Deep() *rapid.Generator[[]byte] {
+	markers := []string{"> ", ">", "- ", "1. ", "* ", "10) ", "+ "}
+	return rapid.Custom(func(t *rapid.T) []byte {
+		d := rapid.IntRange(0, 48).Draw(t, "depth")
+		var first, cont strings.Builder
+		for i := 0; i < d; i++ {
+			m := markers[rapid.IntRange(0, len(markers)-1).Draw(t, "marker")]
+			first.WriteString(m)
+			if m[0] == '>' {
+				cont.WriteString(m)
+			} else {
+				cont.WriteString(strings.Repeat(" ", len(m)))
+			}
+		}
+		var body []string
+		nb := rapid.IntRange(1, 3).Draw(t, "nbody")
+		for i := 0; i < nb; i++ {
+			switch rapid.IntRange(0, 5).Draw(t, "bodykind") {
+			case 0: // nested emphasis / images / link
+				k := rapid.IntRange(1, 40).Draw(t, "inldepth")
+				var open, close []string
+				for j := 0; j < k; j++ {
+					switch rapid.IntRange(0, 4).Draw(t, "nest") {
+					case 0:
+						open, close = append(open, "*a"), append(close, "a*")
+					case 1:
+						open, close = append(open, " _b"), append(close, "b_ ")
+					case 2:
+						open, close = append(open, "**c "), append(close, " c**")
+					case 3:
+						open, close = append(open, "![i "), append(close, " i](/u)")
+					default:
+						open, close = append(open, "[l "), append(close, " l](/v)")
+					}
+				}
+				var sb strings.Builder
+				for _, o := range open {
+					sb.WriteString(o)
+				}
+				sb.WriteString(" x ")
+				for j := len(close) - 1; j >= 0; j-- {
+					sb.WriteString(close[j])
+				}
+				body = append(body, sb.String())
+			case 1: // wide paragraph
+				w := rapid.IntRange(1, 150).Draw(t, "width")
+				unit := []string{"*a* ", "[a](/u) ", "`c` ", "<b> ", "&amp; ", "a\\\n", "**s** _e_ "}[rapid.IntRange(0, 6).Draw(t, "unit")]
+				for _, l := range strings.Split(strings.TrimRight(strings.Repeat(unit, w), " \n\\"), "\n") {
+					body = append(body, l)
+				}
+			case 2: // wide list
+				w := rapid.IntRange(1, 150).Draw(t, "items")
+				for j := 0; j < w; j++ {
+					body = append(body, "- i"+strconv.Itoa(j))
+				}
+			case 3: // many sibling blocks
+				w := rapid.IntRange(1, 100).Draw(t, "blocks")
+				for j := 0; j < w; j++ {
+					body = append(body, "# h"+strconv.Itoa(j))
+				}
+			case 4:
+				body = append(body, "```go", "code", "```")
+			default:
+				body = append(body, "plain *text* here", "")
+			}
+		}
+		var out strings.Builder
+		for i, l := range body {
+			if i == 0 {
+				out.WriteString(first.String())
+			} else {
+				out.WriteString(cont.String())
+			}
+			out.WriteString(l)
+			out.WriteString("\n")
+		}
+		return []byte(out.String())
+	})
 }
